@@ -285,6 +285,7 @@ PROPS["C11"] = dict(
         dict(name="random", pkg="c11", run="TestRandom", checks=dict(quick=1280, thorough=12000), shards=16, timeout=dict(quick=400, thorough=2400), shrinktime="90s"),
         dict(name="nodefail", pkg="c11", run="TestNodeFailure", checks=dict(quick=48, thorough=800), shards=16, timeout=dict(quick=400, thorough=2400), shrinktime="120s"),
         dict(name="gossip", pkg="c11", run="TestGossipSchedules", checks=dict(quick=320, thorough=6000), shards=16, timeout=dict(quick=400, thorough=2400), shrinktime="120s"),
+        dict(name="quickrestart", pkg="c11", run="TestQuickRestart", checks=dict(quick=48, thorough=480), shards=16, timeout=dict(quick=400, thorough=2400), shrinktime="60s"),
     ],
 )
 
